@@ -15,6 +15,14 @@ impl bladeink::story::variable_observer::VariableObserver for Obs {
         self.log.borrow_mut().push(format!("{variable_name}={v}"));
     }
 }
+struct Ext { log: Rc<RefCell<Vec<String>>> }
+impl bladeink::story::external_functions::ExternalFunction for Ext {
+    fn call(&mut self, func_name: &str, args: Vec<bladeink::value_type::ValueType>) -> Option<bladeink::value_type::ValueType> {
+        let a: Vec<String> = args.iter().map(|v| match v { bladeink::value_type::ValueType::Int(i) => i.to_string(), _ => "?".into() }).collect();
+        self.log.borrow_mut().push(format!("{func_name}({})", a.join(",")));
+        Some(bladeink::value_type::ValueType::Int(7))
+    }
+}
 struct Collect { msgs: Rc<RefCell<Vec<String>>> }
 impl ErrorHandler for Collect {
     fn error(&mut self, message: &str, error_type: ErrorType) {
@@ -35,6 +43,7 @@ fn play(src: &str, ops: &[String]) -> serde_json::Value {
     };
     let delivered: Rc<RefCell<Vec<String>>> = Rc::new(RefCell::new(vec![]));
     let notes: Rc<RefCell<Vec<String>>> = Rc::new(RefCell::new(vec![]));
+    let calls: Rc<RefCell<Vec<String>>> = Rc::new(RefCell::new(vec![]));
     let mut story = match Story::new(&json) {
         Ok(s) => s,
         Err(e) => return serde_json::json!({"result": format!("load-error:{e}")}),
@@ -51,6 +60,9 @@ fn play(src: &str, ops: &[String]) -> serde_json::Value {
             let stranger: Rc<RefCell<dyn bladeink::story::variable_observer::VariableObserver>> = Rc::new(RefCell::new(Obs { log: notes.clone() }));
             let name = if var.is_empty() { None } else { Some(var) };
             if let Err(e) = story.remove_variable_observer(&stranger, name) { result = format!("err:{e}"); }
+        } else if let Some(n) = op.strip_prefix("b:") {
+            let (name, mode) = n.split_once(':').unwrap();
+            if let Err(e) = story.bind_external_function(name, Rc::new(RefCell::new(Ext { log: calls.clone() })), mode == "safe") { result = format!("err:{e}"); }
         } else if let Some(n) = op.strip_prefix("rf:") {
             if let Err(e) = story.remove_flow(n) { result = format!("err:{e}"); }
         } else if let Some(n) = op.strip_prefix("sf:") {
@@ -87,6 +99,7 @@ fn play(src: &str, ops: &[String]) -> serde_json::Value {
         "result": result,
         "delivered": *delivered.borrow(),
         "notifications": *notes.borrow(),
+        "external_calls": *calls.borrow(),
     })
 }
 
